@@ -31,7 +31,7 @@ func init() {
 			if tier == "thorough" {
 				return 15 * time.Minute
 			}
-			return 60 * time.Second
+			return 150 * time.Second
 		},
 	})
 }
@@ -82,6 +82,7 @@ func runC12(c *fw.Ctx) {
 		{mset("f", "n", 5000, "new"), mset("nofam", "n", 5000, "new")},
 		{mset("f", "n", 1500, "bad")},
 		{mset("g", "a", -1, "srv"), mdelcol("f", "a")},
+		{mset("f", "n", 5000, "new"), mdelcolr("f", "absent-column", 2000, 1000)}, // invalid range on a column the row does not have
 	}
 	preds := c12Preds()
 	engines := []string{"btree", "mem"}
